@@ -28,6 +28,7 @@ func libName(fn *ssa.Function) string {
 
 // TrustedDoc documents each trusted contract (printed into the evidence).
 var TrustedDoc = map[string]string{
+	"(abstracted)":          "named in 'opt abstract=' of the function under verification: arbitrary results, arbitrary new contents for local objects passed by address, nothing else changes",
 	"builtin append":        "append(a, b...): fresh backing array holding a then b; len = len a + len b; mem(res,x) = mem(a,x) or mem(b,x)",
 	"strings.ToLower":       "uninterpreted function strlower : Str -> Str (nothing else assumed)",
 	"strings.Compare":       "result in {-1,0,1}; 0 iff equal; lexicographic by byte at the first difference, else by length",
@@ -46,7 +47,8 @@ var TrustedDoc = map[string]string{
  	"(*regexp.Regexp).FindStringSubmatch": "returns nil or 1+NumSubexp strings (NumSubexp of package-level regexps is read from the real compiled value)",
  	"bufio.Scanner": "the reader holds a sequence of lines; Scan() returns true and advances iff a line is left and it is shorter than the maximum token size (65536 unless Buffer() raised it to at least its max argument); Text() is the line just passed; no line is 2^62 bytes long",
 	"strings.Fields": "no element of the result is empty",
-	"strings.Split(s, sep)": "with a non-empty separator the result has at least one element",
+	"strings.Split(s, sep)": "for a literal non-empty sep: at least one element, and the first is sbefore(s, sep), the text before the first occurrence of sep (s itself if there is none)",
+	"strings.Cut": "before = sbefore(s, sep); after and found are uninterpreted functions of (s, sep)",
 	"strings.Join":          "uninterpreted deterministic function of (elements, length, separator)",
 	"fmt.Errorf":            "returns a non-nil error",
 	"errors.New":            "returns a non-nil error",
@@ -221,6 +223,18 @@ func (ex *Exec) libCall(st *State, fn *ssa.Function, args []Val, pos string) []O
 		st.Out = append(st.Out, "print@"+pos)
 		return []Outcome{{St: st, Ret: []Val{Int{ex.Ctx.Fresh("n", "Int")}, Err{Nil: ex.Ctx.Fresh("perr", "Bool")}}}}
 	}
+	if ex.Abstract[name] {
+		return ex.abstractCall(st, fn, name, args, pos)
+	}
+	if name == "strings.Cut" {
+		// before = the text before the first occurrence of sep (s itself when there is none)
+		ex.trust("strings.Cut")
+		a, b := args[0].(Str).T, args[1].(Str).T
+		sb := ex.Ctx.Declare("sbefore", []string{"Str", "Str"}, "Str")
+		fa := ex.Ctx.Declare("ext_strings.Cut_1", []string{"Str", "Str"}, "Str")
+		ff := ex.Ctx.Declare("ext_strings.Cut_2", []string{"Str", "Str"}, "Bool")
+		return []Outcome{{St: st, Ret: []Val{Str{smt.App(sb, a, b)}, Str{smt.App(fa, a, b)}, Bool{smt.App(ff, a, b)}}}}
+	}
 	// generic: scalar arguments only -> deterministic uninterpreted function
 	var terms, sorts []string
 	for _, a := range args {
@@ -272,6 +286,13 @@ func (ex *Exec) libCall(st *State, fn *ssa.Function, args []Val, pos string) []O
 							st.Assume(smt.Ge(ln, "1"))
 						}
 					}
+					if name == "strings.Split" && len(args) == 2 && term(args[1]) != "emptystr" {
+						// with a non-empty separator: at least one element, and the first is the
+						// text before the first occurrence of sep
+						ex.trust("strings.Split(s, sep)")
+						sb := ex.Ctx.Declare("sbefore", []string{"Str", "Str"}, "Str")
+						st.Assume(smt.Imp(smt.Neq(terms[1], "emptystr"), smt.And(smt.Ge(ln, "1"), smt.Eq(smt.Sel(rs.Arr, "0"), smt.App(sb, terms[0], terms[1])))))
+					}
 					if name == "strings.Split" && len(args) == 2 && term(args[1]) == "emptystr" {
 						// Split(s, "") explodes s into UTF-8 sequences: every element is non-empty and
 						// an element that starts with an ASCII byte is that single byte
@@ -291,6 +312,57 @@ func (ex *Exec) libCall(st *State, fn *ssa.Function, args []Val, pos string) []O
 		rets = append(rets, wrapTerm(rt, smt.App(f, terms...)))
 	}
 	_ = strings.Join
+	return []Outcome{{St: st, Ret: rets}}
+}
+
+// library constructors documented to return a non-nil pointer
+var nonNilConstructors = map[string]bool{"os/exec.Command": true, "strings.NewReader": true, "bytes.NewBuffer": true, "bytes.NewReader": true}
+
+// abstractCall: a library call named in "opt abstract=" of the function under verification
+// (file and process I/O, decoders, builders): arbitrary results; every local object whose
+// address is passed gets arbitrary contents; nothing else changes. A pointer into the
+// modelled heap is refused (its target would have to be havocked too).
+func (ex *Exec) abstractCall(st *State, fn *ssa.Function, name string, args []Val, pos string) []Outcome {
+	ex.trust("(abstracted) " + name)
+	for _, a := range args {
+		if i, isI := a.(Iface); isI && i.Dyn != nil {
+			a = i.V
+		}
+		p, ok := a.(Ptr)
+		if !ok {
+			if sl, isSl := a.(Slice); isSl && sl.Lit != nil {
+				for _, e := range sl.Lit {
+					if ep, isP := e.(Ptr); isP && ep.Obj != nil {
+						st.Mem[ep.Obj] = ex.Fresh(st, ep.Obj.Typ, "abstracted")
+					}
+				}
+			}
+			continue
+		}
+		if p.Obj != nil && len(p.Path) == 0 && p.Elem == nil {
+			st.Mem[p.Obj] = ex.Fresh(st, p.Obj.Typ, "abstracted")
+			continue
+		}
+		if p.Obj == nil && p.Glob == "" && p.Elem == nil {
+			if _, isNamed := p.Root.(*types.Named); isNamed && p.Root.(*types.Named).Obj().Pkg() != nil && !strings.HasPrefix(p.Root.(*types.Named).Obj().Pkg().Path(), "github.com/roddhjav") {
+				continue // a library object: its state is not modelled
+			}
+		}
+		outside("abstracted call to %s with a pointer into the modelled heap (at %s)", name, pos)
+	}
+	var rets []Val
+	res := fn.Signature.Results()
+	for i := 0; i < res.Len(); i++ {
+		r := ex.Fresh(st, res.At(i).Type(), "abstracted_ret")
+		if rp, isP := r.(Ptr); isP && nonNilConstructors[name] {
+			// a new object
+			st.Assume(smt.Neq(rp.Ref, NilRef))
+			al := ex.allocOf(st)
+			st.Assume(smt.Not(smt.Sel(al, rp.Ref)))
+			st.Ghost["alloc"] = smt.Sto(al, rp.Ref, smt.True)
+		}
+		rets = append(rets, r)
+	}
 	return []Outcome{{St: st, Ret: rets}}
 }
 
